@@ -279,6 +279,27 @@ def rule_handler(ctx):
     for f, a in sites:
         ok = any(x[0] == "call" and x[1].endswith("Network::validator_schedule") for x in subterms(a[1])) and chain(a[2])[1][-1:] == ["0"]
         ctx.ob(R, "handler arguments in %s" % root_fn(f).qname.split("::")[-1], ok, "update(&self.net.validator_schedule()?, &req.0)" if ok else "update called with (%s, %s)" % (show(a[1])[:80], show(a[2])[:40]), f.loc())
+        # the batch a peer sent is applied whole, by one call: the duplicate-key check and the all-or-nothing publish of
+        # ValidatorAddrsWatch::update cover exactly what is handed to one call
+        b = a[2]
+        VIEW = ("std::ops::Deref::deref", "std::vec::Vec::as_slice", "std::convert::AsRef::as_ref", "std::borrow::Borrow::borrow")
+        while True:
+            if b[0] == "call" and b[1] in VIEW and b[2]:
+                b = b[2][0]
+            elif b[0] == "call" and b[1] == "std::ops::Index::index" and len(b[2]) == 2 and b[2][1][0] == "agg" and "RangeFull" in str(b[2][1][1]):
+                b = b[2][0]
+            elif b[0] in ("ref", "deref"):
+                b = b[1]
+            else:
+                break
+        whole = b[0] == "field" and b[2] == "0" and b[1][0] in ("param", "upvar", "var")
+        cfg = ctx.cfg(f, with_cancel=False)
+        ubbs = [c["bb"] for c in ctx.T(f).calls() if (c["rq"] or c["q"]) == VAW + "::update"]
+        in_loop = any(ub in cfg.reach_from([y for _, y in cfg.succ[ub]]) for ub in ubbs)
+        okw = whole and len(ubbs) == 1 and not in_loop
+        ctx.ob(R, "whole batch in one call (%s)" % root_fn(f).qname.split("::")[-1], okw, "the request's announcements are handed to update() whole, once" if okw else
+               ("the received batch is applied piecewise (%s): a rejected request has already changed the address book, and a key repeated across pieces is not detected" %
+                ("update() is called in a loop" if in_loop else "%d update() calls" % len(ubbs) if len(ubbs) != 1 else "argument %s is not the whole request" % show(a[2])[:60])), f.loc())
 
 
 RULES = [("C18.1", rule_update_table), ("C18.2", rule_all_or_nothing), ("C18.3", rule_order), ("C18.4", rule_writers), ("C18.5", rule_handler)]
